@@ -11,6 +11,8 @@ CLAIMED = {
                   "the model is tied to the code by a differential run of quality_trim_index/nextseq_trim_index/QualityTrimmer against the compiled model, "
                   "and a brute-force specification oracle runs against the implementation (function and CLI level).",
              ref="§7 C13", technique="Lean 4 proof (scan invariant by induction) + model/implementation correspondence"),
+ "C14": dict(text="Lean theorems prove, for every sequence / quality string: the poly-A/poly-T index is the shortest tail/head with maximal positive score among those with <= 20% other bases and at least 3 characters (polyA_removed/kept, polyT_removed/kept); --trim-n removes exactly the maximal N runs (trimN_spec, trimN_end_maximal); the N count counts n and N (nCount_spec); the unrolled expected-error accumulation equals the plain sum in any commutative associative arithmetic (accumulate_eq_sum, ee_exact), phred validity (phredOf_spec), and the generated table equals 10^(-q/10) to 1e-13 (table_accurate, table_bits_exact, kernel computation). Bit-exact Float correspondence ties the model to the C code; IEEE rounding of the running sums is outside the theorem.",
+             ref="§7 C14", technique="Lean 4 proof (scan invariants, decide +kernel on the regenerated phred table) + bit-exact model/implementation correspondence"),
 }
 checks = []
 for p in PROPS:
